@@ -3,6 +3,7 @@
 package handlers
 
 import (
+	"github.com/mimecast/dtail/internal/io/line"
 	"context"
 
 	"github.com/mimecast/dtail/internal/lcontext"
@@ -19,3 +20,6 @@ func (h *ServerHandler) VerifC13Read(ctx context.Context, path, globID string, t
 	}
 	newReadCommand(h, mode).read(ctx, lcontext.LContext{}, path, globID, regex.NewNoop())
 }
+
+// VerifC13Lines: the delivery queue (the harness drains it so that a follow never blocks on it).
+func (h *ServerHandler) VerifC13Lines() chan *line.Line { return h.lines }
